@@ -294,6 +294,7 @@ def gen_contract(rnd, decimals=True):
         else:
             pubvars.append({"name": "im0", "p": ("val", t), "kind": "immutable"})
     funcs, events, errors = [], [], []
+    pragma_nonre = rnd.random() < 0.3
     nf = rnd.randint(3, 5)
     for i in range(nf):
         mut = MUTS[i % 4] if i < 4 else rnd.choice(MUTS)
@@ -342,7 +343,10 @@ def gen_contract(rnd, decimals=True):
             if evargs:
                 ev = {"name": f"E{len(events)}", "args": evargs}
                 events.append(ev)
-        funcs.append({"name": f"f{i}", "mut": mut, "pos": pos, "kws": kws, "ret": ret, "event": ev, "kind": "echo"})
+        wrap1 = len(ret) == 1 and ret[0][1][0] != "tuple" and rnd.random() < 0.25
+        nonre = (not pragma_nonre) and mut != "pure" and rnd.random() < 0.45
+        funcs.append({"name": f"f{i}", "mut": mut, "pos": pos, "kws": kws, "ret": ret, "event": ev, "kind": "echo",
+                      "wrap1": wrap1, "nonreentrant": nonre})
     # an error-raising function
     eargs = []
     for j in range(rnd.randint(0, 3)):
@@ -374,6 +378,8 @@ def gen_contract(rnd, decimals=True):
             "pos": [("i0", imm["p"][1])], "kws": [], "ret": [], "kind": "ctor"}
 
     out = []
+    if pragma_nonre:
+        out.append("# pragma nonreentrancy on\n")
     for f in g.flags:
         out.append(f"flag {f[1]}:\n" + "".join(f"    {FLAG_MEMBERS[j]}\n" for j in range(f[2])))
     out.append("interface I0:\n    def foo() -> uint256: view\n")
@@ -395,11 +401,13 @@ def gen_contract(rnd, decimals=True):
     out.append(f"@deploy\n{'@payable' + chr(10) if ctor_payable else ''}def __init__(i0: {ann(imm['p'][1])}):\n"
                f"    self.{imm['name']} = i0\n")
     for f in funcs:
-        decos = "@external\n" + (f"@{f['mut']}\n" if f["mut"] != "nonpayable" else "")
+        decos = "@external\n" + (f"@{f['mut']}\n" if f["mut"] != "nonpayable" else "") + ("@nonreentrant\n" if f.get("nonreentrant") else "")
         args = [f"{n}: {ann(t)}" for n, t in f["pos"]] + [f"{n}: {ann(t)} = {e}" for n, t, e, _ in f["kws"]]
         rett = ""
         if f["ret"]:
             rett = " -> " + (ann(f["ret"][0][1]) if len(f["ret"]) == 1 else "(" + ", ".join(ann(t) for _, t in f["ret"]) + ")")
+            if f.get("wrap1"):
+                rett = " -> (" + ann(f["ret"][0][1]) + ",)"
         body = []
         if f["kind"] == "echo":
             if f["mut"] in ("nonpayable", "payable"):
@@ -407,7 +415,7 @@ def gen_contract(rnd, decimals=True):
             if f["event"]:
                 body.append(f"log {f['event']['name']}(" + ", ".join(f"{n}={n}" for n, _, _ in f["event"]["args"]) + ")")
             if f["ret"]:
-                body.append("return " + ", ".join(n for n, _ in f["ret"]))
+                body.append("return " + (f"({f['ret'][0][0]},)" if f.get("wrap1") else ", ".join(n for n, _ in f["ret"])))
             if not body:
                 body.append("pass")
         elif f["kind"] == "raise":
@@ -417,7 +425,7 @@ def gen_contract(rnd, decimals=True):
             body.append(f"self.{f['var']}" + "".join(f"[k{j}]" for j in range(f["nkeys"])) + " = val")
         out.append(f"{decos}def {f['name']}({', '.join(args)}){rett}:\n" + "".join(f"    {b}\n" for b in body))
     src = "\n".join(out)
-    return {"src": src, "funcs": funcs, "pubvars": pubvars, "events": events, "errors": errors, "ctor": ctor,
+    return {"pragma_nonreentrancy": pragma_nonre, "src": src, "funcs": funcs, "pubvars": pubvars, "events": events, "errors": errors, "ctor": ctor,
             "structs": [s for s in g.structs], "flags": g.flags}
 
 
@@ -427,6 +435,8 @@ def coq_fn(f):
     kws = "[" + "; ".join(f"({qs(k[0])}, {coq_ty(k[1])})" for k in f["kws"]) + "]"
     if not f["ret"]:
         ret = "None"
+    elif len(f["ret"]) == 1 and f.get("wrap1"):
+        ret = f"(Some (VTuple [{coq_ty(f['ret'][0][1])}]))"
     elif len(f["ret"]) == 1:
         ret = f"(Some {coq_ty(f['ret'][0][1])})"
     else:
